@@ -234,10 +234,13 @@ func (n *namer) draw(t *rapid.T, label, kind, ns string, ok func(string) bool) s
 		if !hasLetter(s) || k == "" || u[k] || (ok != nil && !ok(s)) {
 			continue
 		}
+		if (kind == "parameter" || kind == "path-parameter" || kind == "header") && (strings.HasPrefix(k, "set") || strings.HasPrefix(k, "with")) {
+			continue // Set<x> / With<x> collide with the accessors generated for a parameter named x (C08's subject)
+		}
 		if (kind == "parameter" || kind == "path-parameter" || kind == "header") && k == "body" {
 			continue // would collide with the body parameter (C08's subject)
 		}
-		if kind == "operation-id" && (k == "new" || strings.HasSuffix(k, "params") || strings.HasSuffix(k, "parameters") || strings.HasSuffix(k, "responses") || strings.HasSuffix(k, "urlbuilder") || strings.HasSuffix(k, "body") || strings.HasPrefix(k, "new")) {
+		if kind == "operation-id" && (k == "new" || strings.HasSuffix(k, "params") || strings.HasSuffix(k, "parameters") || strings.HasSuffix(k, "responses") || strings.HasSuffix(k, "urlbuilder") || strings.HasSuffix(k, "body") || strings.HasPrefix(k, "new") || strings.HasSuffix(k, "default") || strings.HasSuffix(k, "ok") || strings.HasSuffix(k, "created") || strings.HasSuffix(k, "nocontent") || strings.HasSuffix(k, "handler") || strings.HasSuffix(k, "handlerfunc") || strings.HasSuffix(k, "url")) {
 			continue // <op>Params / New<op> ... collide with the types generated for another operation (C08's subject)
 		}
 		if !n.unfilter {
